@@ -180,6 +180,12 @@ LAYERS = [
         ("the pause after a failure dropped", drop(lambda e: e["e"] == "Sleep" and e["kind"] == "renew_fail"), "X02_PauseAfterFailure"),
         ("a request started before the scheduled sleep", drop(lambda e: e["e"] == "Sleep" and e["kind"] == "schedule"), "X02_RequestOnlyWhenDue"),
     ]),
+    ("Protocol", "X03_tv", "X03", [
+        ("the order poll that answered ready reported as pending", edit(lambda e: e["e"] == "OrderPoll" and e["status"] == "ready", setk(["status"], "pending")), "X03_FinalizeAfterReady"),
+        ("a challenge answered twice", dup(lambda e: e["e"] == "Chall" and e["ok"]), "X03_ChallengeOnce"),
+        ("the download dropped from a successful attempt", drop(lambda e: e["e"] == "Cert" and e["ok"]), "X03_SuccessNeedsDownload"),
+        ("an authorization polled once more after valid", dup(lambda e: e["e"] == "Authz" and e["status"] == "valid"), "X03_StopAtValidAuthz"),
+    ]),
 ]
 
 
